@@ -89,6 +89,69 @@ Definition defined (fs : flagset) (n : token) : bool := existsb (fun g => bytes_
 
 Definition starts_with_dash (n : token) : bool := match n with c :: _ => c =? 45 | [] => false end.
 
+(** * parseStructFieldTag and the field recursion of parseStructFields *)
+
+(** s[:pos], s[pos+1:] for pos = strings.IndexByte(s, sep); [None] when sep does not occur *)
+Fixpoint cut (sep : N) (s : list N) : option (list N * list N) :=
+  match s with
+  | [] => None
+  | c :: r =>
+      if c =? sep then Some ([], r)
+      else match cut sep r with
+           | Some (a, b) => Some (c :: a, b)
+           | None => None
+           end
+  end.
+
+(** strings.ToLower for ASCII field names (Go field names outside ASCII are not modelled) *)
+Definition ascii_lower (s : list N) : list N := map (fun c => if is_upper c then c + 32 else c) s.
+
+(** the part of parseStructFieldTag after the separator is known:
+     if pos := IndexByte(name, sep); pos >= 0 { value = name[pos+1:]; name = name[:pos];
+        if pos = IndexByte(value, sep); pos >= 0 { usage = value[pos+1:]; value = value[:pos] } }
+     if name == "" { name = strings.ToLower(field.Name) } *)
+Definition split_tag (sep : N) (name : list N) (field_name : list N) : list N * list N * list N :=
+  let '(name, value, usage) :=
+    match cut sep name with
+    | Some (n, v) => match cut sep v with
+                     | Some (v', u) => (n, v', u)
+                     | None => (n, v, [])
+                     end
+    | None => (name, [], [])
+    end in
+  ((match name with [] => ascii_lower field_name | _ => name end), value, usage).
+
+(** parseStructFieldTag: [tag] is field.Tag.Get("flag"); result (name, value, usage).
+     name = tag; sep := ','; if name != "" && name[0] == '|' { name = name[1:]; sep = '|' } *)
+Definition parse_tag (tag : list N) (field_name : list N) : list N * list N * list N :=
+  match tag with
+  | c :: r => if c =? 124 then split_tag 124 r field_name else split_tag 44 tag field_name
+  | [] => split_tag 44 [] field_name
+  end.
+
+(** the exported fields of a struct type, as parseStructFields sees them *)
+Inductive sfield :=
+| SLeaf (go_name : list N) (tag : list N) (k : kind)       (* a field of one of the nine kinds *)
+| SStruct (go_name : list N) (fields : list sfield).       (* field.Type.Kind() == reflect.Struct (named or embedded) *)
+
+Definition flag_of_field (group go_name tag : list N) (k : kind) : flag :=
+  let '(name, value, _) := parse_tag tag go_name in
+  {| fname := name; fpath := group ++ go_name; fkind := k; fdef := value |}.
+
+(** the flags in the order parseStructFields registers them; nested: group + field.Name + "_" *)
+Fixpoint flatten_field (group : list N) (f : sfield) : list flag :=
+  match f with
+  | SLeaf n tag k => [flag_of_field group n tag k]
+  | SStruct n fs =>
+      (fix go (l : list sfield) : list flag :=
+         match l with
+         | [] => []
+         | x :: r => flatten_field (group ++ n ++ [95]) x ++ go r
+         end) fs
+  end.
+
+Definition flatten (fs : list sfield) : list flag := flat_map (flatten_field []) fs.
+
 (** * NewFlagSet *)
 Inductive nres := NOk (fs : flagset) (st : state) | NErr.
 
@@ -206,6 +269,9 @@ Definition run (w : world) (fields : list flag) (args : list token) : rresult :=
   | NErr => RNewErr
   | NOk fs st0 => RParse (parse w fs st0 args)
   end.
+
+(** NewFlagSet(&cfg) + Parse(args) for a struct type given by its exported fields *)
+Definition run_struct (w : world) (fields : list sfield) (args : list token) : rresult := run w (flatten fields) args.
 
 (** * Specification side: which JSON overlay a successful Parse has applied *)
 Definition json_overlay (w : world) (asg : list (token * token)) : option (list (token * value)) :=
